@@ -101,7 +101,8 @@ def build_shadow(flavour="normal"):
     content hash of every build input (so an edited tree is always rebuilt; an unchanged tree
     re-uses the identical binary).  Returns the directory to put on PYTHONPATH."""
     cflags, ldflags = FLAVOURS[flavour]
-    key = source_hash(flavour + cflags) + "-" + flavour
+    # the python files are symlinked from REPO: a scratch worktree must not share a shadow with /repo
+    key = source_hash(flavour + cflags + os.path.realpath(REPO)) + "-" + flavour
     os.makedirs(CACHE_ROOT, exist_ok=True)
     dest = os.path.join(CACHE_ROOT, key)
     lock = open(os.path.join(CACHE_ROOT, key + ".lock"), "w")
